@@ -131,7 +131,7 @@ def prove(theorems=None, timeout=600):
     pdir = os.path.join(SPEC_DIR, "proofs")
     src = open(os.path.join(pdir, "Proofs.tla")).read()
     norm = lambda t: re.sub(r"\s+", " ", t).strip()
-    for mod, names in (("Tracker", ["Reflect"]), ("Tableau", ["Fam2B1", "Fam2B2"]), ("OutFile", ["CeilDiv"])):
+    for mod, names in (("Tracker", ["Reflect"]), ("Tableau", ["Fam2B1", "Fam2B2"]), ("OutFile", ["CeilDiv"]), ("Frames", ["LerpVal"])):
         msrc = norm(open(os.path.join(SPEC_DIR, mod + ".tla")).read())
         for nm in names:
             m = re.search(r"^" + nm + r"\(.*?(?=^\S)", src, re.M | re.S)
@@ -153,7 +153,7 @@ def prove(theorems=None, timeout=600):
         raise MachineryError("tlapm: " + (f.group(0) if f else out[-400:]))
     n = int(m.group(1))
     return dict(checker="tlapm --cleanfp spec/proofs/Proofs.tla", obligations=n, discharged=n, wall_s=round(time.time() - t0, 2),
-                theorems=["InColumnAll", "WeightsConvexAll", "ClockInverseAll", "FamilyOrder2All", "ColdRecordsInWindow"])
+                theorems=["InColumnAll", "WeightsConvexAll", "ClockInverseAll", "FamilyOrder2All", "ColdRecordsInWindow", "LerpEndpointsAll", "TimeToStepFloorAll", "WarmRecordsInWindow"])
 
 
 # ------------------------------------------------------------------------------------------------
